@@ -536,6 +536,16 @@ func (c *Ctx) Concat(a, b *Term) *Term {
 		if a.IsConst() && a.V == 0 {
 			return c.ZExt(b, uint8(w))
 		}
+		// bytes of a conditionally stored word: concat(ite(c,a1,b1), ite(c,a2,b2)) = ite(c, a1·a2, b1·b2)
+		if a.Op == OpIte && b.Op == OpIte && a.A == b.A {
+			return c.Ite(a.A, c.Concat(a.B, b.B), c.Concat(a.C, b.C))
+		}
+		if a.Op == OpIte && b.IsConst() && a.B.IsConst() && a.C.IsConst() {
+			return c.Ite(a.A, c.Concat(a.B, b), c.Concat(a.C, b))
+		}
+		if b.Op == OpIte && a.IsConst() && b.B.IsConst() && b.C.IsConst() {
+			return c.Ite(b.A, c.Concat(a, b.B), c.Concat(a, b.C))
+		}
 		// concat(x, concat(y,z)) with x,y adjacent extracts: re-associate
 		if a.Op == OpExtract && b.Op == OpConcat && b.A.Op == OpExtract && b.A.A == a.A {
 			alo := uint8(a.V & 0xff)
